@@ -131,6 +131,25 @@ func (c *ClusterNode) RPCSendShard(args *RPCSendShardRequest, reply *RPCSendShar
 		return fmt.Errorf("could not open shard file: %w", err)
 	}
 	defer f.Close()
+	if args.ChunkIndex > 0 && len(args.ChunkData) > 0 {
+		// Every chunk before this one is a full chunk. More than that has been
+		// collected when this chunk is delivered a second time (the sender
+		// repeats a call whose answer came too late): what the first delivery
+		// wrote is dropped, the file would otherwise hold the chunk twice.
+		collected := int64(args.ChunkIndex) * CHUNKSIZE
+		info, err := f.Stat()
+		if err != nil {
+			return fmt.Errorf("could not examine shard file: %w", err)
+		}
+		if info.Size() < collected {
+			return fmt.Errorf("chunk %d of a shard file arrives with %d bytes collected", args.ChunkIndex, info.Size())
+		}
+		if info.Size() > collected {
+			if err := f.Truncate(collected); err != nil {
+				return fmt.Errorf("could not write shard file: %w", err)
+			}
+		}
+	}
 	n, err := f.Write(args.ChunkData)
 	if err != nil {
 		return fmt.Errorf("could not write shard file: %w", err)
